@@ -95,6 +95,7 @@ package coverage
 //@   ensures old(parser.inv(p)) && fmt1 && n1 >= 0 && pos + 4 + 2*n1 <= fsize(p.r) && faults(p.r) == old(faults(p.r)) && (forall k int :: 1 <= k && k < n1 ==> cov1gid(F, pos, k-1) < cov1gid(F, pos, k)) ==> err == nil
 //@   ensures p.r == old(p.r)
 //@   ensures faults(p.r) > old(faults(p.r)) ==> err != nil
+//@   ensures reliable(p.r) ==> faults(p.r) == old(faults(p.r))
 //@   modifies p.*, allelems(byte), rpos(p.r), faults(p.r)
 //@   loop 0
 //@     invariant parser.inv(p) && 0 <= i && i <= glyphCount && table != nil && fresh(table) && faults(p.r) == old(faults(p.r)) && len(table) == i && -1 <= prev && prev <= 65535
